@@ -11,7 +11,7 @@ import asn1crypto.core
 
 from cryptodatahub.common.exception import InvalidValue
 
-from cryptoparser.common.exception import NotEnoughData
+from cryptoparser.common.exception import InvalidType, NotEnoughData
 from cryptoparser.common.parse import ParsableBase
 
 
@@ -149,24 +149,39 @@ class LDAPMessageParsableBase(ParsableBase):
         raise NotImplementedError()
 
     @classmethod
+    @abc.abstractmethod
+    def _get_protocol_op_name(cls):
+        raise NotImplementedError()
+
+    @classmethod
     def _parse_asn1(cls, parsable):
         try:
             message = LDAPMessage.load(bytes(parsable))
             # ensure recursive parsing
             message.native  # pylint: disable=pointless-statement
+            protocol_op_name = message['protocolOp'].name
         except ValueError as e:
-            match = cls._NOT_ENOUGH_DATA_REGEX.match(e.args[0])
+            match = cls._NOT_ENOUGH_DATA_REGEX.match(str(e.args[0]))
             if match:
                 bytes_requested = int(match.group(1))
                 bytes_available = int(match.group(2))
                 six.raise_from(NotEnoughData(bytes_requested - bytes_available), e)
             else:
                 six.raise_from(InvalidValue(parsable, cls), e)
+        except (KeyError, TypeError, AttributeError) as e:  # malformed BER that asn1crypto does not report as ValueError
+            six.raise_from(InvalidValue(parsable, cls), e)
+
+        if protocol_op_name != cls._get_protocol_op_name():
+            raise InvalidType()
 
         return message
 
 
 class LDAPExtendedRequestStartTLS(LDAPMessageParsableBase):
+    @classmethod
+    def _get_protocol_op_name(cls):
+        return 'extendedReq'
+
     @classmethod
     def _parse(cls, parsable):
         asn1_message = cls._parse_asn1(parsable)
@@ -187,6 +202,10 @@ class LDAPExtendedRequestStartTLS(LDAPMessageParsableBase):
 @attr.s
 class LDAPExtendedResponseStartTLS(LDAPMessageParsableBase):
     result_code = attr.ib(validator=attr.validators.in_(LDAPResultCode))
+
+    @classmethod
+    def _get_protocol_op_name(cls):
+        return 'extendedResp'
 
     @classmethod
     def _parse(cls, parsable):
